@@ -1192,7 +1192,8 @@ func (s *appStream) realPrepare(r *tr.Rng, ptxs []*pendingTx, script *appsim.Blo
 		}
 		fmt.Fprintf(os.Stderr, "# prepare-count exp=%d got=%d admitted=%d flood=%d expiring=%d\n", exp+1, len(out.txs), admitted, flood, expiring)
 	}
-	s.emit(po, fmt.Sprintf("ok ;; txs=%d", len(out.txs)))
+	po.Add("got", len(out.txs))
+	s.emit(po, "ok")
 	// ... and every other validator checks it
 	eb, err := sim.DecodeEthBlockTx(out.txs[0])
 	if err != nil || eb.Payload == nil {
